@@ -29,6 +29,8 @@ func init() {
 
 func runC14(c *Ctx) {
 	p := c.Progs["mod"]
+	c.Rule("C14.Y", "compatibility with the party that is not changed with this code: the frame page leaves the Referer of its iframe alone", 1)
+	ruleBannerNoReferrerPolicy(c, p, "C14.Y")
 	c.Rule("C14.G", "banner gating by partial evaluation of the predicates", 13)
 	c.Rule("C14.X", "1xx interim statuses do not latch the banner writer (= C03.X)", 2)
 	c.Rule("C14.T", "predicate truth tables and constants", 15)
@@ -129,7 +131,17 @@ func runC14(c *Ctx) {
 						break
 					}
 				}
-				if okW && PathOf(a[2]) == P(h, ri) && PathOf(a[0]) == P(pr, 1) {
+				okWrapped := PathOf(a[0]) == P(pr, 1)
+				if !okWrapped {
+					// the handler is built by a constructor that Proxy (and others) call with the handler to
+					// wrap: the constructor's own parameter, given Proxy's at Proxy's call site
+					for _, r := range Roots(a[0]) {
+						if PathOf(r) == P(pr, 1) {
+							okWrapped = true
+						}
+					}
+				}
+				if okW && PathOf(a[2]) == P(h, ri) && okWrapped {
 					h2, _ := (&Walk{Target: func(i ssa.Instruction) bool { return i == call }, Edge: EdgeUnder(env(false))}).FromBlock(h.Blocks[0])
 					if h2 != nil {
 						okPass = true
@@ -566,6 +578,29 @@ func runC14(c *Ctx) {
 				pairs[canonicalHeaderKey(k)] = s
 			}
 		})
+		// … or a lookup of the header value in a read-only table of destinations that has "iframe"
+		EachInstr(f, func(i ssa.Instruction) {
+			lk, ok := i.(*ssa.Lookup)
+			if !ok || lk.CommaOk {
+				return
+			}
+			g := CallResult(lk.Index, 0, "(net/http.Header).Get")
+			if g == nil {
+				return
+			}
+			k, _ := ConstString(PArgs(&g.Call)[1])
+			if ld, isL := lk.X.(*ssa.UnOp); isL {
+				if gl, isG := ld.X.(*ssa.Global); isG {
+					if tbl, okT := readOnlyTable(gl); okT {
+						if v, has := tbl["iframe"]; has && v.Kind() == constant.Bool && constant.BoolVal(v) {
+							if _, set := pairs[canonicalHeaderKey(k)]; !set {
+								pairs[canonicalHeaderKey(k)] = "iframe"
+							}
+						}
+					}
+				}
+			}
+		})
 		c.Check("C14.T", "isAlreadyFramed:constants", p, f.Pos(), pairs["Sec-Fetch-Mode"] == "nested-navigate" && pairs["Sec-Fetch-Dest"] == "iframe", "Sec-Fetch-Mode == nested-navigate or Sec-Fetch-Dest == iframe", fmt.Sprintf("isAlreadyFramed tests %v", pairs))
 		// referer: host AND path
 		okRef := false
@@ -650,6 +685,41 @@ func runC14(c *Ctx) {
 				return okv && cv.Kind() == constant.Bool && !constant.BoolVal(cv)
 			}, Avoid: readsReferer, Edge: EdgeUnder(env), Ctx: f}).FromBlock(f.Blocks[0])
 			c.Check("C14.T", "isAlreadyFramed:[Sec-Fetch-Dest="+dest+",navigate]:referer-still-consulted", p, f.Pos(), hit == nil, "with Sec-Fetch-Dest: "+dest+" the answer 'not framed' is only given after the Referer was examined", "with Sec-Fetch-Dest: "+dest+" and Sec-Fetch-Mode: navigate isAlreadyFramed answers false without looking at the Referer (return at "+posStr(p, hit)+"): a page that is already inside the banner's frame and navigates to itself gets a second banner frame")
+		}
+		// … and a top-level navigation (Sec-Fetch-Dest: document, mode navigate, or no fetch metadata at
+		// all) without a Referer is NOT framed: it is the request the banner exists for
+		for _, tc := range []map[string]string{{"Sec-Fetch-Dest": "document", "Sec-Fetch-Mode": "navigate"}, {}} {
+			hdr := tc
+			env := func(v ssa.Value) (constant.Value, bool) {
+				if g := CallResult(v, 0, "(net/http.Header).Get"); g != nil {
+					if k, isC := ConstString(PArgs(&g.Call)[1]); isC {
+						return constant.MakeString(hdr[canonicalHeaderKey(k)]), true
+					}
+				}
+				if g := CallResult(v, 0, "(*net/http.Request).Referer"); g != nil {
+					return constant.MakeString(""), true
+				}
+				return nil, false
+			}
+			badRet := ""
+			nret := 0
+			(&Walk{Target: func(i ssa.Instruction) bool {
+				r, isR := i.(*ssa.Return)
+				if !isR || i.Parent() != f {
+					return false
+				}
+				nret++
+				cv, okv := Eval(ReturnValue(r, 0), env)
+				if !okv || cv.Kind() != constant.Bool || constant.BoolVal(cv) {
+					badRet = p.Pos(r.Pos())
+				}
+				return false
+			}, Edge: EdgeUnder(env), Ctx: f}).FromBlock(f.Blocks[0])
+			name := "no-fetch-metadata"
+			if len(hdr) > 0 {
+				name = "Sec-Fetch-Dest=document,navigate"
+			}
+			c.Check("C14.T", "isAlreadyFramed:["+name+",no-referer]:not-framed", p, f.Pos(), badRet == "" && nret > 0, "a top-level navigation without a Referer is not taken for a framed one: every reachable return is false", "with "+name+" and no Referer isAlreadyFramed can answer true (return at "+badRet+"): top-level page loads are taken for framed ones and are never given the banner frame")
 		}
 		c.Check("C14.T", "isAlreadyFramed:referer-path", p, f.Pos(), okRef, "the referer only counts when its path equals the request's", "the referer test no longer compares the paths")
 	}
